@@ -8,9 +8,9 @@ import (
 	"path/filepath"
 	"strings"
 
+	"context"
 	f3 "github.com/filecoin-project/go-f3"
 	"github.com/filecoin-project/go-f3/gpbft"
-	"context"
 	"github.com/filecoin-project/go-f3/manifest"
 	"github.com/filecoin-project/go-f3/sim/signing"
 	pubsub "github.com/libp2p/go-libp2p-pubsub"
@@ -135,8 +135,46 @@ func runC12(o *out, r *rng, thorough bool, replay string) {
 		}
 	}
 
+	// random histories over a WIDE alphabet: rounds 0..5 that mostly grow and are revisited, every step, two signatures
+	for i := 0; i < nl; i++ {
+		f := f3.VerifNewFilter(local)
+		var terms, exp []string
+		conflict := false
+		seen := map[string]byte{}
+		inst, round := uint64(1), uint64(0)
+		for j, n := 0, 8+r.intn(30); j < n; j++ {
+			if r.chance(8) {
+				inst++
+				round = 0
+			} else if r.chance(30) && round < 5 {
+				round++
+			}
+			mr := round
+			if r.chance(45) {
+				mr = uint64(r.intn(int(round) + 1))
+			}
+			x := eqMsg{inst, 7, mr, gpbft.Phase(1 + r.intn(5)), byte(1 + r.intn(2))}
+			ok := f.ProcessBroadcast(x.gmsg())
+			terms = append(terms, "FB "+x.term())
+			exp = append(exp, cBool(ok))
+			k := fmt.Sprint(x.inst, x.round, x.phase)
+			if sg, okk := seen[k]; okk && sg != x.sig {
+				conflict = true
+				if ok {
+					o.violate("never two differently signed messages for the same instance, sender, round and step", "filter-equivocation-admitted",
+						map[string]any{"ops": append([]string{}, terms...)}, fmt.Sprintf("the filter admitted %s although a different signature was admitted for that slot before", x.term()))
+				}
+			}
+			if _, okk := seen[k]; !okk && ok {
+				seen[k] = x.sig
+			}
+		}
+		o.coqCase(fmt.Sprintf("filter wide random %d", i), fmt.Sprintf("filter_ok 2 %s %s", cList(terms), cList(exp)))
+		o.count("filter-wide-random", cList(terms), conflict)
+	}
+
 	// ---------- host path over the real filter + real WAL ----------
-	nh := 40
+	nh := 80
 	if thorough {
 		nh = 400
 	}
@@ -163,11 +201,15 @@ func runC12(o *out, r *rng, thorough bool, replay string) {
 			}
 		}
 		curInst := uint64(1)
+		curRound := uint64(0)
 		keep := uint64(0)
 		steps := 10 + r.intn(30)
 		for st := 0; st < steps; st++ {
 			if r.chance(15) {
 				curInst += uint64(1 + r.intn(2))
+				curRound = 0
+			} else if r.chance(25) {
+				curRound++ // the instance moves on to later rounds; requests for EARLIER rounds keep arriving (restarts, rebroadcasts)
 			}
 			inst := curInst
 			if r.chance(15) && inst > keep && inst > 1 {
@@ -176,7 +218,11 @@ func runC12(o *out, r *rng, thorough bool, replay string) {
 					inst = keep
 				}
 			}
-			m := eqMsg{inst, 7, uint64(r.intn(2)), gpbft.Phase(1 + r.intn(4)), byte(1 + r.intn(2))}
+			mround := curRound
+			if r.chance(40) {
+				mround = uint64(r.intn(int(curRound) + 1))
+			}
+			m := eqMsg{inst, 7, mround, gpbft.Phase(1 + r.intn(5)), byte(1 + r.intn(2))}
 			k := fmt.Sprint(m.inst, m.round, m.phase)
 			if s, ok := said[k]; ok && s != m.sig {
 				conflict = true
@@ -309,7 +355,7 @@ func runC12Runner(o *out, r *rng, thorough bool) {
 	m := manifest.LocalDevnetManifest()
 	m.NetworkName = verifNet
 	mec := newModelEC()
-	nh := 30
+	nh := 60
 	if thorough {
 		nh = 300
 	}
@@ -376,15 +422,23 @@ func runC12Runner(o *out, r *rng, thorough bool) {
 			senders = []uint64{7, 8, 11} // a node signing for several identities
 		}
 		steps := 10 + r.intn(30)
+		curRound := uint64(0)
 		for st := 0; st < steps; st++ {
 			if r.chance(12) {
 				curInst += uint64(1 + r.intn(2))
+				curRound = 0
+			} else if r.chance(25) {
+				curRound++
 			}
 			inst := curInst
 			if r.chance(12) && inst > 1 {
 				inst--
 			}
-			x := eqMsg{inst, senders[r.intn(len(senders))], uint64(r.intn(2)), gpbft.Phase(1 + r.intn(4)), byte(1 + r.intn(2))}
+			xround := curRound
+			if r.chance(40) {
+				xround = uint64(r.intn(int(curRound) + 1))
+			}
+			x := eqMsg{inst, senders[r.intn(len(senders))], xround, gpbft.Phase(1 + r.intn(5)), byte(1 + r.intn(2))}
 			kk := fmt.Sprint(x.inst, x.sender, x.round, x.phase)
 			if s, ok := said[kk]; ok && s != x.sig {
 				conflict = true
